@@ -40,11 +40,16 @@ func runC07(r *Run) error {
 	ctx := context.Background()
 	master := r.Rng
 	defer func() { r.Rng = master }()
-	for hi := 0; hi < hists; hi++ {
+	// (one more history at the end has a long log, see c06.go)
+	for hi := 0; hi < hists+1; hi++ {
 		if !kvHistoryRng(r, master, hi) {
 			continue
 		}
+		long := hi == hists
 		n := 1 + r.Rng.Intn(3)
+		if long {
+			n = 2
+		}
 		s, err := NewScen(n, "docstore", nil)
 		if err != nil {
 			return err
@@ -53,6 +58,9 @@ func runC07(r *Run) error {
 		nk := 1 + r.Rng.Intn(len(pool))
 		keys := pool[:nk]
 		steps := 7 + r.Rng.Intn(16)
+		if long {
+			steps = 0
+		}
 		prev := make([]map[string][]byte, n)
 		for i := range prev {
 			prev[i] = map[string][]byte{}
@@ -191,6 +199,56 @@ func runC07(r *Run) error {
 			if err := observe(rep, st, what, false); err != nil {
 				return err
 			}
+		}
+		if long {
+			ds := s.Stores[0].(iface.DocumentStore)
+			for i := 0; i < 70; i += 5 {
+				if i%2 == 0 {
+					for j := i; j < i+5; j++ {
+						if _, err := ds.Put(ctx, mk(fmt.Sprintf("Doc%03d", j))); err != nil {
+							return err
+						}
+					}
+					continue
+				}
+				var batch []interface{}
+				for j := i; j < i+5; j++ {
+					batch = append(batch, mk(fmt.Sprintf("Doc%03d", j)))
+				}
+				if _, err := ds.PutAll(ctx, batch); err != nil {
+					return err
+				}
+			}
+			if err := observe(0, 0, "put of 70 documents", false); err != nil {
+				return err
+			}
+			for i, k := range []string{"Doc000", "Doc007", "Doc035"} {
+				if _, err := ds.Delete(ctx, k); err != nil {
+					return err
+				}
+				if err := observe(0, 1+i, "del of a document put long before", false); err != nil {
+					return err
+				}
+			}
+			if _, err := ds.Put(ctx, mk("Doc001")); err != nil {
+				return err
+			}
+			if _, err := ds.PutAll(ctx, []interface{}{mk("Doc000"), mk("Doc006")}); err != nil {
+				return err
+			}
+			if err := observe(0, 4, "overwrite and re-put in a long log", false); err != nil {
+				return err
+			}
+			if err := s.SyncFrom(1, 0); err != nil {
+				return err
+			}
+			if !s.Settle() {
+				r.AddDirect("hang:sync", "replication did not settle", map[string]interface{}{"hist": hi, "state": sim.LastSettleState})
+			}
+			if err := observe(1, 5, "sync of a long log", false); err != nil {
+				return err
+			}
+			r.Count("long-log-history")
 		}
 		kvProbeEnd(hi)
 		r.Pre = append(r.Pre, u.Def())
